@@ -358,21 +358,39 @@ package internal
 // cache reads it): csvE(s, i) - byte i is escaped by a preceding unescaped backslash;
 // csvQ(s, i) - byte i lies inside a quoted string. The loop of the iterator body is proved to
 // track exactly this machine (so a list is split only at commas outside quoted strings and
-// escapes); which elements that yields (csvN/csvAt) stays the trusted contract of TrimmedCSVSeq.
-// The yield callback is assumed not to reach the iterator's own locals.
+// escapes).
 //@ spec func csvQ(s string, i int) bool
 //@ spec func csvE(s string, i int) bool
 //@ axiom csv-machine-start: forall s string :: !csvQ(s, 0) && !csvE(s, 0)
 //@ axiom csv-machine-step: forall s string, i int :: 0 <= i && i < len(s) ==> (csvE(s, i+1) == (!csvE(s, i) && s[i] == 92)) && (csvQ(s, i+1) == (csvQ(s, i) != (!csvE(s, i) && s[i] != 92 && s[i] == 34)))
-//@ fnparam TrimmedCSVSeq$1.yield(p)
-//@   pure
+// DEFINITION of the list elements csvN/csvAt (RFC 9110 5.6.1: the non-empty, OWS-trimmed pieces
+// between the commas that split): csvSplit(s, i) - the comma at i splits; csvStart(s, i) - where
+// the piece containing position i begins; csvCnt(s, i) - how many non-empty pieces end at a
+// splitting comma before i. The piece that ends at the end of the text counts when non-empty.
+// The body of the iterator is proved to yield exactly these, in order (yields clause).
+//@ spec func csvSplit(s string, i int) bool = s[i] == 44 && !csvQ(s, i) && !csvE(s, i)
+//@ spec func csvStart(s string, i int) int
+//@ spec func csvPiece(s string, i int) string = trimOWS(s[csvStart(s, i):i])
+//@ spec func csvCnt(s string, i int) int
+//@ axiom csv-start-0: forall s string {csvStart(s, 0)} :: csvStart(s, 0) == 0
+//@ axiom csv-start-step: forall s string, i int {csvStart(s, i)} :: 0 <= i && i < len(s) ==> csvStart(s, i+1) == ite(csvSplit(s, i), i+1, csvStart(s, i))
+//@ axiom csv-cnt-0: forall s string {csvCnt(s, 0)} :: csvCnt(s, 0) == 0
+//@ axiom csv-cnt-step: forall s string, i int {csvCnt(s, i)} :: 0 <= i && i < len(s) ==> csvCnt(s, i+1) == ite(csvSplit(s, i) && len(csvPiece(s, i)) > 0, csvCnt(s, i) + 1, csvCnt(s, i))
+// csvCnt never decreases (by induction on j from csv-cnt-step; /verif/lemmas/csvcnt_mono.lean)
+//@ axiom csv-cnt-mono: forall s string, i int, j int {csvCnt(s, i), csvCnt(s, j)} :: 0 <= i && i <= j && j <= len(s) ==> csvCnt(s, i) <= csvCnt(s, j)
+//@ axiom csv-n-def: forall s string {csvN(s)} :: csvN(s) == ite(len(csvPiece(s, len(s))) > 0, csvCnt(s, len(s)) + 1, csvCnt(s, len(s)))
+//@ axiom csv-at-split: forall s string, i int {csvCnt(s, i)} :: 0 <= i && i < len(s) && csvSplit(s, i) && len(csvPiece(s, i)) > 0 ==> csvAt(s, csvCnt(s, i)) == csvPiece(s, i)
+//@ axiom csv-at-end: forall s string {csvStart(s, len(s))} :: len(csvPiece(s, len(s))) > 0 ==> csvAt(s, csvCnt(s, len(s))) == csvPiece(s, len(s))
 //@ func TrimmedCSVSeq$1
-//@   property C12 C06 C02 C18 C01 C13
+//@   property C12 C06 C02 C18 C01 C13 C04
 //@   requires s != nil && yield != nil
 //@   assigns *
+//@   yields csvN(*s) :: csvAt(*s, k)
 //@   loop 0 invariant *s == old(*s) && 0 <= rangeint_iter && rangeint_iter < len(*s)
 //@   loop 0 invariant inQuotes == csvQ(*s, rangeint_iter)                                           # name: splits-only-outside-quoted-strings
 //@   loop 0 invariant escape == csvE(*s, rangeint_iter)                                             # name: backslash-escapes-the-next-byte
+//@   loop 0 invariant 0 <= csvStart(*s, rangeint_iter) && csvStart(*s, rangeint_iter) <= rangeint_iter && sbc[&part] == (*s)[csvStart(*s, rangeint_iter):rangeint_iter]     # name: collects-the-text-since-the-last-splitting-comma
+//@   loop 0 invariant !stopped && yielded == csvCnt(*s, rangeint_iter) && 0 <= yielded && yielded <= rangeint_iter                                                           # name: one-element-per-non-empty-piece
 //@   loop 0 decreases len(*s) - rangeint_iter                                                       # name: tokenizer-terminates   props: C10 C12
 //@   loop 0 return-requires stopped                                                                 # name: scan-ends-early-only-when-the-consumer-stops-it   props: C12 C18 C06 C02 C01 C13
 //@ func TrimmedCSVSeq
@@ -834,10 +852,10 @@ package internal
 //@   pure
 //@   ensures result == normValue(field, value)
 //@ fnparam normalizeVaryHeaderSeq2$1$1.yield(name, value)
-//@   requires value == normFirst(*reqHeader, name)                            # name: resolved-value-is-the-requests-normalised-first-value   props: C04
+//@   requires value == normFirst(*reqHeader, name)                            # name: resolved-value-is-the-requests-normalised-first-value   props: C04 C09
 //@   pure
 //@ func normalizeVaryHeaderSeq2$1$1
-//@   property C04
+//@   property C04 C09
 //@   requires reqHeader != nil && yield != nil && *yield != nil && jump_S_1 != nil
 //@   assigns *
 //@ iface VaryKeyer.VaryKey(k, urlKey, varyHeaders)
